@@ -169,14 +169,17 @@ class Lexer(ITokenizer):
 		Returns:
 			トークンドメイン
 		Raises:
-			AssertionError: 未分類の文字種を処理
+			Errors.Syntax: 未分類の文字種を処理
 		"""
 		for token_domain in self._definition.analyze_order:
 			analyzer = self._analyzers[token_domain]
 			if analyzer(source, begin):
 				return token_domain
 
-		assert False, Errors.Never(f'Undetermine token domain. {source[begin]}')
+		# 未分類の文字(文字列外のバックスラッシュや非ASCII文字など)は入力側の不備のため、シンタックスエラーとして報告
+		line_no = source.count('\n', 0, begin)
+		cause_line = source.split('\n')[line_no]
+		raise Errors.Syntax(f'Undetermine token domain. token: {repr(source[begin])}\n({line_no + 1}) >>> {cause_line}')
 
 	def analyze_white_spece(self, source: str, begin: int) -> bool:
 		"""トークンドメインを解析(空白)
